@@ -14,6 +14,7 @@ structure Rel (b : Base α) : Prop where
   prim_iff : b.primary = b.outerStopped
   dead : b.rcDisposed = true → b.live = []
   zero : b.primary = true → b.rcDisposed = false → 0 < b.count
+  hold : b.rcDisposed = true → b.attachedCount = 0
 
 theorem modify_eq_set {β : Type} (l : List β) (i : Nat) (f : β → β) (w : β) (h : l[i]? = some w) :
     l.modify i f = l.set i (f w) := by
@@ -67,12 +68,13 @@ theorem foldl_unsub_fields (l : List Nat) (b : Base α) :
 theorem Rel_of_fields {b b' : Base α} (hw : b'.wins = b.wins) (hc : b'.count = b.count) (hp : b'.primary = b.primary)
     (hr : b'.rcDisposed = b.rcDisposed) (ho : b'.outerStopped = b.outerStopped)
     (hl : b.rcDisposed = true → b'.live = []) (h : Rel b) : Rel b' := by
-  refine ⟨?_, ?_, ?_, ?_, ?_⟩
+  refine ⟨?_, ?_, ?_, ?_, ?_, ?_⟩
   · intro h1; rw [hc, attachedCount, hw]; exact h.cnt (hr ▸ h1)
   · intro h1; rw [hp]; exact h.disp_prim (hr ▸ h1)
   · rw [hp, ho]; exact h.prim_iff
   · intro h1; exact hl (hr ▸ h1)
   · intro h1 h2; rw [hc]; exact h.zero (hp ▸ h1) (hr ▸ h2)
+  · intro h1; rw [attachedCount, hw]; exact h.hold (hr ▸ h1)
 
 theorem Rel_emit (b : Base α) (o) (h : Rel b) : Rel (b.emit o) :=
   Rel_of_fields (b := b) rfl rfl rfl rfl rfl h.dead h
@@ -99,16 +101,17 @@ theorem Rel_subscribe_unsub (b : Base α) (k) (hd : b.rcDisposed = true) (h : Re
   simp [unsub, subscribe, emit, hl]
 
 theorem Rel_disposeUnderlying_of (b : Base α) (hp : b.primary = true) (ho : b.outerStopped = true)
-    (hr : b.rcDisposed = true) : Rel b.disposeUnderlying := by
+    (hr : b.rcDisposed = true) (ha : b.attachedCount = 0) : Rel b.disposeUnderlying := by
   obtain ⟨a1, a2, a3, a4, a5⟩ := foldl_unsub_fields b.live b
   have hl := live_disposeUnderlying b
   unfold disposeUnderlying at hl ⊢
-  refine ⟨?_, ?_, ?_, ?_, ?_⟩
+  refine ⟨?_, ?_, ?_, ?_, ?_, ?_⟩
   · intro h1; rw [a4, hr] at h1; cases h1
   · intro _; rw [a3]; exact hp
   · rw [a3, a5, hp, ho]
   · intro _; exact hl
   · intro _ h2; rw [a4, hr] at h2; cases h2
+  · intro _; rw [attachedCount, a1]; exact ha
 
 end Base
 end Win
@@ -127,9 +130,11 @@ theorem Rel_outerStop (b : Base α) (l : List (Nat × Out α)) (h : Rel b) (hos 
   simp only [hr, hp, Bool.false_eq_true, if_false]
   by_cases hc : (b.count == 0) = true
   · simp only [hc, if_true]
-    exact Rel_disposeUnderlying_of _ rfl rfl rfl
+    refine Rel_disposeUnderlying_of _ rfl rfl rfl ?_
+    show b.attachedCount = 0
+    rw [← h.cnt hr]; simpa using hc
   · simp only [hc, Bool.false_eq_true, if_false]
-    refine ⟨fun _ => h.cnt hr, fun h1 => by simp [hr] at h1, rfl, fun h1 => by simp [hr] at h1, fun _ _ => ?_⟩
+    refine ⟨fun _ => h.cnt hr, fun h1 => by simp [hr] at h1, rfl, fun h1 => by simp [hr] at h1, fun _ _ => ?_, fun h1 => by simp [hr] at h1⟩
     have : b.count ≠ 0 := by simpa using hc
     exact Nat.pos_of_ne_zero this
 
@@ -170,22 +175,26 @@ theorem Rel_detach (b b' : Base α) (i : Nat) (w w' : W α) (hw : b.wins[i]? = s
   unfold rcRelease
   by_cases hd : b.rcDisposed = true
   · simp only [hr, hd, if_true]
-    refine ⟨fun h1 => ?_, fun _ => ?_, ?_, fun _ => ?_, fun _ h2 => ?_⟩
+    refine ⟨fun h1 => ?_, fun _ => ?_, ?_, fun _ => ?_, fun _ h2 => ?_, fun _ => ?_⟩
     · rw [hr, hd] at h1; cases h1
     · rw [hp]; exact h.disp_prim hd
     · rw [hp, ho]; exact h.prim_iff
     · rw [hl]; exact h.dead hd
     · rw [hr, hd] at h2; cases h2
+    · have := h.hold hd; omega
   · have hd' : b.rcDisposed = false := by simpa using hd
     have hcnt := h.cnt hd'
     simp only [hr, hd', Bool.false_eq_true, if_false]
     by_cases hz : (b'.count - 1 == 0 && b'.primary) = true
     · simp only [hz, if_true]
       have hpp : b'.primary = true := by simp only [Bool.and_eq_true] at hz; exact hz.2
-      exact Rel_disposeUnderlying_of _ hpp (by show b'.outerStopped = true; rw [ho, ← h.prim_iff, ← hp]; exact hpp) rfl
+      refine Rel_disposeUnderlying_of _ hpp (by show b'.outerStopped = true; rw [ho, ← h.prim_iff, ← hp]; exact hpp) rfl ?_
+      show b'.attachedCount = 0
+      have hz1 : b'.count - 1 = 0 := by simp only [Bool.and_eq_true] at hz; simpa using hz.1
+      omega
     · simp only [hz, Bool.false_eq_true, if_false]
       refine ⟨fun _ => ?_, fun h1 => by simp [hr, hd'] at h1, by show b'.primary = b'.outerStopped; rw [hp, ho]; exact h.prim_iff,
-        fun h1 => by simp [hr, hd'] at h1, fun h1 _ => ?_⟩
+        fun h1 => by simp [hr, hd'] at h1, fun h1 _ => ?_, fun h1 => by simp [hr, hd'] at h1⟩
       · show b'.count - 1 = b'.attachedCount
         rw [hc, hcnt]; omega
       · show 0 < b'.count - 1
@@ -229,12 +238,13 @@ theorem Rel_winNext (b : Base α) (i : Nat) (x : α) (h : Rel b) : Rel (b.winNex
     · have key : ∀ b' : Base α, b'.wins = b.wins.set i { w with pushed := w.pushed ++ [x] } → b'.count = b.count →
           b'.primary = b.primary → b'.rcDisposed = b.rcDisposed → b'.outerStopped = b.outerStopped → b'.live = b.live → Rel b' := by
         intro b' h1 h2 h3 h4 h5 h6
-        refine ⟨fun hd => ?_, fun hd => ?_, ?_, fun hd => ?_, fun hp hd => ?_⟩
+        refine ⟨fun hd => ?_, fun hd => ?_, ?_, fun hd => ?_, fun hp hd => ?_, fun hd => ?_⟩
         · rw [h2, attachedCount, h1, countP_set_same_attached b.wins i w { w with pushed := w.pushed ++ [x] } hw rfl]; exact h.cnt (h4 ▸ hd)
         · rw [h3]; exact h.disp_prim (h4 ▸ hd)
         · rw [h3, h5]; exact h.prim_iff
         · rw [h6]; exact h.dead (h4 ▸ hd)
         · rw [h2]; exact h.zero (h3 ▸ hp) (h4 ▸ hd)
+        · rw [attachedCount, h1, countP_set_same_attached b.wins i w { w with pushed := w.pushed ++ [x] } hw rfl]; exact h.hold (h4 ▸ hd)
       split <;> exact key _ rfl rfl rfl rfl rfl rfl
 
 theorem Rel_winEnd (b : Base α) (i : Nat) (e : Option Err) (h : Rel b) : Rel (b.winEnd i e) := by
@@ -250,9 +260,11 @@ theorem Rel_winEnd (b : Base α) (i : Nat) (e : Option Err) (h : Rel b) : Rel (b
         exact Rel_detach b _ i w _ hw ha rfl rfl rfl rfl rfl rfl rfl h
       · have ha' : w.attached = false := by simpa using ha
         simp only [ha', Bool.false_eq_true, if_false]
-        refine ⟨fun hd => ?_, h.disp_prim, h.prim_iff, h.dead, h.zero⟩
-        show b.count = (b.wins.set i _).countP _
-        rw [countP_set_same_attached b.wins i w { w with ended := some e, attached := false } hw (by simp [ha'])]; exact h.cnt hd
+        refine ⟨fun hd => ?_, h.disp_prim, h.prim_iff, h.dead, h.zero, fun hd => ?_⟩
+        · show b.count = (b.wins.set i _).countP _
+          rw [countP_set_same_attached b.wins i w { w with ended := some e, attached := false } hw (by simp [ha'])]; exact h.cnt hd
+        · show (b.wins.set i _).countP _ = 0
+          rw [countP_set_same_attached b.wins i w { w with ended := some e, attached := false } hw (by simp [ha'])]; exact h.hold hd
 
 theorem Rel_winDetach (b : Base α) (i : Nat) (h : Rel b) : Rel (b.winDetach i) := by
   unfold winDetach
@@ -274,7 +286,7 @@ theorem Rel_open (b : Base α) (h : Rel b) : Rel (b.newWin.1.outerNext b.newWin.
   have hcnt0 : b.newWin.1.attachedCount = b.attachedCount := by
     simp [attachedCount, newWin, List.countP_append]
   have hnew : Rel b.newWin.1 :=
-    ⟨fun hd => by rw [hcnt0]; exact h.cnt hd, h.disp_prim, h.prim_iff, h.dead, h.zero⟩
+    ⟨fun hd => by rw [hcnt0]; exact h.cnt hd, h.disp_prim, h.prim_iff, h.dead, h.zero, fun hd => by rw [hcnt0]; exact h.hold hd⟩
   have hget : b.newWin.1.wins[b.wins.length]? = some {} := by simp [newWin]
   show Rel (b.newWin.1.outerNext b.wins.length)
   generalize b.newWin.1 = b1 at hnew hget
@@ -294,7 +306,7 @@ theorem Rel_open (b : Base α) (h : Rel b) : Rel (b.newWin.1.outerNext b.newWin.
       have hi : b.wins.length < b1.wins.length := (List.getElem?_eq_some_iff.mp hget).1
       have hwi : b1.wins[b.wins.length] = {} := (List.getElem?_eq_some_iff.mp hget).2
       rw [List.countP_set hi, hwi]; simp
-    refine ⟨fun _ => ?_, fun hd => by simp [hr] at hd, ?_, fun hd => by simp [hr] at hd, fun hp' _ => ?_⟩
+    refine ⟨fun _ => ?_, fun hd => by simp [hr] at hd, ?_, fun hd => by simp [hr] at hd, fun hp' _ => ?_, fun hd => by simp [hr] at hd⟩
     · show b1.count + 1 = _
       unfold attachedCount; simp only []; rw [hac, hnew.cnt hr]; rfl
     · exact hp
